@@ -57,7 +57,7 @@ Fixpoint lookup (p : str) (l : list (str * str)) : option str :=
   end.
 
 (** Reference resolution (RFC 3986 5.2) restricted to what the dialect uses:
-    a base [scheme://authority/path] without query, and references that are
+    a base [scheme://authority/path] without query and fragment, and references that are
     empty, a fragment [#f], an absolute path [/p] or a relative path without
     dot segments and query.  Anything else is outside the dialect ([None]). *)
 Definition chr (s : string) : ascii := match s with String c _ => c | EmptyString => zero end.
@@ -90,9 +90,9 @@ Definition resolve (b ref : str) : option str :=
   match authority_part b with
   | None => None
   | Some auth =>
-    if contains (Str "?") b || contains (Str "?") ref || has_dot_segment ref then None
+    if contains (Str "?") b || contains (Str "#") b || contains (Str "?") ref || has_dot_segment ref then None
     else
-      let b0 := before_first (Str "#") b in
+      let b0 := b in
       match ref with
       | [] => Some b0
       | c :: _ =>
